@@ -41,6 +41,18 @@ Lemma awc_ok_step fu bs m size :
    (if size <=? length bs then ntrue (firstn size bs) = m else ntrue bs <= m) /\ awc_ok fu (skipn size bs) m size).
 Proof. destruct bs; [contradiction|]. intros _. reflexivity. Qed.
 
+(** enough fuel is enough *)
+Lemma awc_ok_fuel m size : 0 < size -> forall fu fu' bs, length bs < fu -> length bs < fu' ->
+  (awc_ok fu bs m size <-> awc_ok fu' bs m size).
+Proof.
+  intros Hs. induction fu as [|fu IH]; intros fu' bs H1 H2; [lia|]. destruct fu' as [|fu']; [lia|].
+  destruct bs as [|b bs]; [reflexivity|].
+  rewrite !awc_ok_step by discriminate.
+  assert (Hl : length (skipn size (b :: bs)) < length (b :: bs)).
+  { rewrite skipn_length. cbn [length]. lia. }
+  rewrite (IH fu' (skipn size (b :: bs))) by lia. reflexivity.
+Qed.
+
 Lemma awc_requests s fuel : forall vars w size cw reqs,
   Forall (fun v => (0 < v)%Z) vars ->
   add_weight_constraint fuel vars w size cw = COk reqs ->
